@@ -312,8 +312,8 @@ def path_eq_implies_equal_hash(c, kinds):
     c.ensures('a==b=>hash(a)==hash(b)', ops.Implies(e, c.py_eq(c.hash(p1), c.hash(p2))))
 
 
-@contract('C16', 'path.QuadraticBezier.length', budget=120)
-def quadratic_length_after_reassignment_answers_like_a_fresh_segment(c):
+@contract('C16', 'path.QuadraticBezier.length', params=[{'interval': 'whole'}], budget=120)
+def quadratic_length_after_reassignment_answers_like_a_fresh_segment(c, interval):
     """length() requested, a control point reassigned, length() requested again: the same value a
     newly built QuadraticBezier of the current points returns; a reversed() copy taken before or
     after the reassignment answers for its own points.  (Where the closed form is undefined in
@@ -321,7 +321,8 @@ def quadratic_length_after_reassignment_answers_like_a_fresh_segment(c):
     P, seg = mkseg(c, 3)
 
     def L(s):
-        out = c.outcome(lambda: c.callm(s, 'length'))
+        # 'backwards' is length(t0=1, t1=0): the only call form that reads and fills the class's cache
+        out = c.outcome(lambda: c.callm(s, 'length') if interval == 'whole' else c.callm(s, 'length', 1, 0))
         if out.kind != 'ok':
             c.cut()
         return out.value
@@ -335,6 +336,37 @@ def quadratic_length_after_reassignment_answers_like_a_fresh_segment(c):
     c.ensures('reversed-copy-taken-after-the-reassignment-answers-for-the-new-points',
               ops.eq(L(rev_after), L(c.new('path.QuadraticBezier', P[2], Q1, P[0]))))
     c.ensures('reversed-copy-taken-before-keeps-the-old-length', ops.eq(L(rev_before), L(c.new('path.QuadraticBezier', P[2], P[1], P[0]))))
+
+
+@contract('C16', 'path.QuadraticBezier.reversed', params=[{'_bounded_only': True}])
+def quadratic_cache_after_reassignment_and_reversal_sampled(c):
+    """bounded stand-in: QuadraticBezier only reads and fills its length cache for the call form
+    length(t0=1, t1=0); histories over that form - fill, reassign a control point, reverse, ask
+    again - answer like fresh segments.  (Symbolically this needs the orientation symmetry of the
+    closed form, an identity between sqrt/log terms the engine cannot prove, so it is sampled.)"""
+    import svgpathtools.path as sp
+    P = [c.cplx('P0'), c.cplx('P1'), c.cplx('P2')]
+    z = c.cplx('z')
+    c.assume(len(set(P)) == 3 and z not in P)
+    a = P[0] - 2 * P[1] + P[2]
+    c.assume(abs(a) > 1e-3 and abs(ops.cross(a, P[1] - P[0])) > 1e-3)          # generic position (closed form defined)
+    which = int(abs(c.real('which')) * 10) % 3
+    q = sp.QuadraticBezier(*P)
+    first = q.length(1, 0)
+    r0 = q.reversed()
+    setattr(q, ('start', 'control', 'end')[which], z)
+    cur = [q.start, q.control, q.end]
+    a2 = cur[0] - 2 * cur[1] + cur[2]
+    c.assume(abs(a2) > 1e-3 and abs(ops.cross(a2, cur[1] - cur[0])) > 1e-3)
+    r1 = q.reversed()
+    tol = 1e-9 * (1 + abs(first))
+
+    def same(x, y):
+        return abs(x - y) <= tol * (1 + abs(y))
+    c.ensures('copy-reversed-after-the-reassignment-answers-for-the-new-points', same(r1.length(1, 0), sp.QuadraticBezier(*cur[::-1]).length(1, 0)))
+    c.ensures('the-segment-itself-answers-for-the-new-points', same(q.length(1, 0), sp.QuadraticBezier(*cur).length(1, 0)))
+    c.ensures('copy-reversed-before-keeps-the-old-points', same(r0.length(1, 0), sp.QuadraticBezier(*P[::-1]).length(1, 0)))
+    c.ensures('copies-do-not-share-their-cache-with-the-original', r0._length_info is not q._length_info and r1._length_info is not q._length_info)
 
 
 @contract('C16', 'path.Line.length')
